@@ -298,3 +298,106 @@ def replay_battle(ctx, payload):
     if r["rejects"]:
         ctx.violation(payload["signature"], payload["what"], dict(kind="battle", mode=payload["mode"], reports=payload.get("reports"),
                                                                   trace=read_lines(os.path.join(d, "re.000.ndjson"))))
+
+
+def check_C13(ctx):
+    ctx.cov["rule"] = ("ALL call histories up to depth d (quick 3, thorough 4) over {AddWarrior(w in pool of 3), SpawnWarrior(i in -1..count+1, off in {0,M-1,M,2M+3}), RunCycle, Run, Reset} "
+                       "on a 3-cell core, plus random histories of length 40 on cores 3..8; after EVERY call GetWarrior(-1..count+1), NextPC/Length/Alive/Queue of every warrior, "
+                       "GetMem beyond the core, CycleCount/MaxCycles/CoreSize are called and logged; every call runs under recover and Run() under a 3 s watchdog. "
+                       "TLC validates each logged call against MARS.tla (BattleTrace mode C13). distinct_nontrivial = distinct histories executed.")
+    ctx.cov["trusted_base"] = ["harness/api.go enumeration and logging", "harness/enc.go tables", "TLC", "Json module"]
+    cfg = "MC_API.cfg" if ctx.quick else "MC_API_thorough.cfg"
+    r = ctx.tlc("MC_API", cfg=cfg, workers=NCPU, timeout=3000, heap="16g")
+    ctx.notes["spec_model"] = "%s: complete reachable API state graph, %d distinct states / %d transitions; Safe, ResetEqualsFresh, RunStops, BadSpawnNoChange, AliveSpawnRefused hold" % (cfg, r["distinct"], r["generated"])
+    if ctx.quick:
+        shards, st = gen_battles(ctx, "api", ["-shards", 16, "-depth", 3, "-random", 400], "api")
+    else:
+        shards, st = gen_battles(ctx, "api", ["-shards", 96, "-depth", 4, "-random", 20000], "api")
+    rej = ctx.validate_shards("BattleTrace", shards, mode="C13", heap="5g")
+    ctx.cov["traces_validated_against_impl"] = st["histories"]
+    ctx.cov["evaluations"] = st["events"]
+    ctx.cov["distinct_nontrivial"] = st["histories"]
+    ctx.cov["exhaustive"] = True
+    ctx.notes["hung_run_calls"] = st["hung"]
+    ctx.sample(read_lines(shards[0])[:5])
+    reproduce_api(ctx, rej)
+
+
+def api_sig(tr, pos):
+    e = tr[pos]
+    s = "C13 api %s" % e["ev"]
+    if e.get("panic"):
+        s += " panic"
+    if e.get("timeout"):
+        s += " did-not-return"
+    if e.get("qpanic") or 2 in e.get("gw", []) or any(x[1] == 2 for x in e.get("npc", [])):
+        s += " query-panic"
+    if e["ev"] == "spawn":
+        cnt = e.get("count", 0)
+        s += " index=%s" % ("valid" if 0 <= e["i"] < cnt else "invalid")
+    prev = [x["ev"] for x in tr[1:pos]]
+    s += " after=%s" % (",".join(prev[-2:]) if prev else "new")
+    return s
+
+
+def reproduce_api(ctx, rejects, cap=25):
+    seen = {}
+    for shard, idx in rejects:
+        tr, pos = trace_of(shard, idx)
+        seen.setdefault(api_sig(tr, pos), []).append((tr, pos))
+    n = 0
+    for sig, items in seen.items():
+        if n >= cap:
+            break
+        n += 1
+        tr, pos = items[0]
+        hist = api_history(tr)
+        d = ctx.sub("arepro%d" % n)
+        src = os.path.join(d, "hist.json")
+        json.dump(dict(cfg=tr[0], hist=hist), open(src, "w"))
+        ctx.run_harness(["api-replay", "-in", src, "-out", os.path.join(d, "re")])
+        re_file = os.path.join(d, "re.000.ndjson")
+        r = ctx.tlc("BattleTrace", env=dict(VERIF_TRACE=re_file, VERIF_MODE="C13"))
+        if not r["rejects"]:
+            raise ToolError("rejection (%s) did not reproduce when the history was re-executed alone" % sig)
+        re_tr = read_lines(re_file)
+        bad = re_tr[r["rejects"][0] - 1]
+        what = "history %s on M=%s: call #%d '%s' is not a behaviour of the specification; observed %s" % (
+            hist_str(hist), tr[0]["M"], r["rejects"][0] - 1, bad["ev"], json.dumps(bad)[:500])
+        ctx.violation(sig, what, dict(kind="api", cfg=tr[0], hist=hist, trace=re_tr, others_with_same_signature=len(items) - 1))
+
+
+def api_history(tr):
+    h = []
+    for e in tr[1:]:
+        if e["ev"] == "add":
+            h.append(dict(kind="add", code=e["code"], start=e["start"]))
+        elif e["ev"] == "spawn":
+            h.append(dict(kind="spawn", i=e["i"], off=e["off"]))
+        else:
+            h.append(dict(kind=e["ev"]))
+    return h
+
+
+def hist_str(h):
+    out = []
+    for c in h:
+        if c["kind"] == "add":
+            out.append("Add(%s;start=%d)" % (" / ".join(ins_str(i) for i in c["code"]), c["start"]))
+        elif c["kind"] == "spawn":
+            out.append("Spawn(%d,%d)" % (c["i"], c["off"]))
+        else:
+            out.append({"cycle": "RunCycle", "run": "Run", "reset": "Reset"}[c["kind"]])
+    return " ".join(out)
+
+
+def replay_api(ctx, payload):
+    d = ctx.sub("replay")
+    src = os.path.join(d, "hist.json")
+    json.dump(dict(cfg=payload["cfg"], hist=payload["hist"]), open(src, "w"))
+    ctx.run_harness(["api-replay", "-in", src, "-out", os.path.join(d, "re")])
+    r = ctx.tlc("BattleTrace", env=dict(VERIF_TRACE=os.path.join(d, "re.000.ndjson"), VERIF_MODE="C13"))
+    ctx.cov["traces_validated_against_impl"] = 1
+    ctx.cov["evaluations"] = len(payload["hist"])
+    if r["rejects"]:
+        ctx.violation(payload["signature"], payload["what"], dict(kind="api", cfg=payload["cfg"], hist=payload["hist"]))
